@@ -4,6 +4,7 @@ package main
 // SMT-LIB 2 printer that emits shared sub-terms as define-funs.
 
 import (
+	"os"
 	"fmt"
 	"math/big"
 	"sort"
@@ -462,7 +463,26 @@ func Select(a, i *Term) *Term {
 		selectDepth--
 		return r
 	}
+	// offsets of slices held in memory at function entry are 0 (see FnCtx.Load): read as the numeral,
+	// so that index terms stay free of a symbolic offset wherever the read can be resolved
+	if cur.Sort.Elem.Kind != SArray && os.Getenv("HVC_OFF0") != "" && isEntryOffHeap(cur) {
+		if cur.Sort.Elem.Kind == SInt {
+			return IntNum(0)
+		}
+		if cur.Sort.Elem.Kind == SBV {
+			return BVNum(0, cur.Sort.Elem.Width)
+		}
+	}
 	return mk("select", a.Sort.Elem, cur, i)
+}
+
+// isEntryOffHeap: t is the entry value of a heap of slice/string offsets, or one location of a
+// two-level one: H0_<mode>_<...>.off or select(H0_<mode>_<...>.off, a).
+func isEntryOffHeap(t *Term) bool {
+	if t.Op == "select" {
+		t = t.Args[0]
+	}
+	return t.Op == "sym" && strings.HasPrefix(t.Name, "H0_") && strings.HasSuffix(t.Name, ".off")
 }
 
 // definitelyDistinct: x vs x+c (c != 0 numeral) in Int arithmetic.
